@@ -26,6 +26,12 @@ fn nones(o: &mut Obs, n: usize) {
         o.none();
     }
 }
+/// a timeout in nanoseconds, up to `Duration::MAX` (more than a u64 of nanoseconds)
+fn dur(s: &str) -> Option<Duration> {
+    let n: u128 = s.parse().ok()?;
+    let secs = u64::try_from(n / 1_000_000_000).ok()?;
+    Some(Duration::new(secs, (n % 1_000_000_000) as u32))
+}
 fn ok_obs() -> Obs {
     Obs(vec![0])
 }
@@ -39,7 +45,7 @@ fn slot(o: &mut Obs, m: &Option<ParameterNumberMessage>) {
 pub fn eval_pp(t: &mut PTables, w: &[&str]) -> Option<Obs> {
     match w {
         ["new", id, timeout] => {
-            set_at(&mut t.tab, id.parse().ok()?, PollingParameterNumberMessageScanner::new(Duration::from_nanos(timeout.parse().ok()?)));
+            set_at(&mut t.tab, id.parse().ok()?, PollingParameterNumberMessageScanner::new(dur(timeout)?));
             Some(ok_obs())
         }
         ["default", id] => { set_at(&mut t.tab, id.parse().ok()?, PollingParameterNumberMessageScanner::default()); Some(ok_obs()) }
@@ -75,13 +81,13 @@ pub fn eval_pp(t: &mut PTables, w: &[&str]) -> Option<Obs> {
             *sc = copy;
             Some(o)
         }
-        ["eq", a, b] | ["same", a, b] => {
+        ["eq", a, b] | ["same", a, b] | ["pollfx", a, b, _] => {
             let x = (*t.tab.get(a.parse::<usize>().ok()?)?)?; let y = (*t.tab.get(b.parse::<usize>().ok()?)?)?;
             Some(Obs(vec![(x == y) as i64]))
         }
         ["isnew", a, timeout] | ["mustbenew", a, timeout] => {
             let x = (*t.tab.get(a.parse::<usize>().ok()?)?)?;
-            let n = PollingParameterNumberMessageScanner::new(Duration::from_nanos(timeout.parse().ok()?));
+            let n = PollingParameterNumberMessageScanner::new(dur(timeout)?);
             let z = PollingParameterNumberMessageScanner::new(Duration::from_nanos(0));
             Some(Obs(vec![(x == n) as i64, (z == PollingParameterNumberMessageScanner::default()) as i64]))
         }
@@ -185,7 +191,12 @@ pub fn explore(out: &mut Out, channels: &[u32], timeout: u64, max_states: usize,
             match inp {
                 Inp::Msg(s, d1, d2) => { let l = out.req_ret(&format!("pp feed 0 raw {} {} {}", s, d1, d2)); if l.chars().any(|c| c.is_ascii_digit()) { reports += 1; } }
                 Inp::Reset => { out.req("pp reset 0"); out.req(&format!("pp {} 0 {}", if strict_reset { "mustbenew" } else { "isnew" }, timeout)); }
-                Inp::Poll(c) => { let l = out.req_ret(&format!("pp poll 0 {}", c)); if !l.starts_with('-') { reports += 1; polls_reporting += 1; } }
+                Inp::Poll(c) => {
+                    let l = out.req_ret(&format!("pp poll 0 {}", c));
+                    if !l.starts_with('-') { reports += 1; polls_reporting += 1; }
+                    // C13: a poll before the timeout (or with nothing pending) has no effect: real `==` with the state before
+                    out.req(&format!("pp pollfx 0 {} {}", id, c));
+                }
                 Inp::Tick(d) => { out.req(&format!("pp tick {}", d)); }
                 Inp::SameAsTemp => {}
             }
@@ -245,29 +256,35 @@ pub fn random_histories(out: &mut Out, seed: u64, histories: usize, len: usize, 
     let mut rng = Rng(seed ^ 0xB011);
     let (mut n, mut reports) = (0u64, 0u64);
     let impls = ["raw", "str", "frn"];
-    let timeouts = [0u64, 3, 1000, u64::MAX, 1];
+    // the last two exceed a u64 of nanoseconds (2^64 ns, Duration::MAX): every poll is early, nothing may panic
+    let timeouts = ["0", "3", "1000", "18446744073709551615", "1", "1500000000", "18446744073709551616", "18446744073709551615999999999"];
     for h in 0..histories {
-        let timeout = timeouts[h % timeouts.len()];
+        let tstr = timeouts[h % timeouts.len()];
+        let timeout: u64 = tstr.parse::<u128>().unwrap().min(u64::MAX as u128) as u64;
         let chans = if h % 3 == 0 { 2 } else { 16 };
         out.req(&format!("pp settime {}", if h % 4 == 0 { rng.below(1 << 40) } else { 0 }));
-        if timeout == 0 && h % 2 == 0 { out.req("pp default 1"); } else { out.req(&format!("pp new 1 {}", timeout)); }
+        if timeout == 0 && h % 2 == 0 { out.req("pp default 1"); } else { out.req(&format!("pp new 1 {}", tstr)); }
         let mut copied = false;
         for _ in 0..len {
             let r = rng.below(100);
             let which = impls[rng.below(3) as usize];
             if r < 2 {
                 out.req("pp reset 1");
-                out.req(&format!("pp {} 1 {}", if strict_reset { "mustbenew" } else { "isnew" }, timeout));
+                out.req(&format!("pp {} 1 {}", if strict_reset { "mustbenew" } else { "isnew" }, tstr));
             } else if r < 4 {
                 out.req("pp copy 1 2"); copied = true;
             } else if r < 7 && copied {
                 let (s, d1, d2) = random_msg(&mut rng, chans);
                 out.req(&format!("pp feed 2 {} {} {} {}", which, s, d1, d2));
             } else if r < 25 {
-                let l = out.req_ret(&format!("pp poll 1 {}", rng.below(chans)));
+                let c = rng.below(chans);
+                out.req("pp copy 1 3");
+                let l = out.req_ret(&format!("pp poll 1 {}", c));
                 if !l.starts_with('-') { reports += 1; }
+                out.req(&format!("pp pollfx 1 3 {}", c));
             } else if r < 40 {
-                let d = match rng.below(6) { 0 => 0, 1 => 1, 2 => timeout.saturating_sub(1), 3 => timeout, 4 => timeout.saturating_add(1), _ => rng.below(2000) };
+                let d = match rng.below(6) { 0 => 0, 1 => 1, 2 => timeout.saturating_sub(1), 3 => timeout, 4 => timeout.saturating_add(1),
+                                             _ => if timeout == 1_500_000_000 { 300_000_000 * (1 + rng.below(7)) } else { rng.below(2000) } };
                 out.req(&format!("pp tick {}", d));
             } else if r < 48 {
                 // encoder output of a random message, either byte order
@@ -554,14 +571,17 @@ pub fn directed(out: &mut Out, seed: u64, count: usize) {
     let mut rng = Rng(seed ^ 0xC13);
     let mut n = 0u64;
     for k in 0..count {
-        let timeout = [1u64, 2, 3, 1000, 1 << 40, u64::MAX][k % 6];
+        // (sub-second and whole-second structure matters to code that compares seconds and nanoseconds separately)
+        let timeout = [1u64, 2, 3, 1000, 1 << 40, u64::MAX, 900_000_000, 1_500_000_000, 2_000_000_001][k % 9];
         let ch = rng.below(16) as u8;
         let st = 0xB0 + ch;
         let reg = rng.below(2) == 0;
         let (hi, lo, v, l) = (rng.below(128) as u8, rng.below(128) as u8, rng.below(128) as u8, rng.below(128) as u8);
         let number = hi as u32 * 128 + lo as u32;
         let (xm, xl) = if reg { (101u8, 100u8) } else { (99, 98) };
-        out.req(&format!("pp settime {}", rng.below(1 << 20)));
+        // (the mock clock is a u64: with the largest timeout a late poll is only expressible from time 0)
+        let start = rng.below(1 << 20);
+        out.req(&format!("pp settime {}", if timeout == u64::MAX { 0 } else { start }));
         out.req(&format!("pp new 1 {}", timeout));
         let mut prior = String::new();
         for _ in 0..rng.below(5) {
@@ -572,8 +592,11 @@ pub fn directed(out: &mut Out, seed: u64, count: usize) {
         out.req(&format!("pp feed 1 raw {} {} {}", st, xm, hi));
         out.req(&format!("pp feed 1 raw {} {} {}", st, xl, lo));
         let desc = format!("timeout={} ch={} reg={} number={} v={} l={} prior={}", timeout, ch, reg as u8, number, v, l, if prior.is_empty() { "-" } else { &prior });
-        let late_tick = |rng: &mut Rng, elapsed: u64| -> u64 { (timeout - elapsed).saturating_add(if timeout < (1 << 41) { rng.below(3) } else { 0 }) };
-        match k % 3 {
+        // how far beyond the timeout the late polls of this scenario come (replayed from `over=`)
+        let over = if timeout < (1 << 41) { [0u64, 1, 2, 0, 1, 150_000_000, 600_000_000, 1_000_000_001][rng.below(8) as usize] } else { 0 };
+        let desc = format!("{} over={}", desc, over);
+        let late_tick = |_rng: &mut Rng, elapsed: u64| -> u64 { (timeout - elapsed).saturating_add(over) };
+        match (k / 9) % 3 {
             0 => {
                 out.req(&format!("pp feed 1 raw {} 6 {}", st, v));
                 let mut elapsed = 0u64;
@@ -603,10 +626,13 @@ pub fn directed(out: &mut Out, seed: u64, count: usize) {
                 let r1 = out.req_ret(&format!("pp poll 1 {}", ch));
                 let r2 = out.req_ret(&format!("pp feed 1 raw {} 6 {}", st, v));
                 out.oracle("c13-unpaired-lsb-dropped-by-late-poll", &desc, r0 == NONE12 && r1 == NONE6 && r2 == NONE12);
-                let d = late_tick(&mut rng, 0);
-                out.req(&format!("pp tick {}", d));
-                let r3 = out.req_ret(&format!("pp poll 1 {}", ch));
-                out.oracle("c13-msb-after-dropped-lsb-is-lone", &desc, r3 == cells7(ch, number, reg, v));
+                // (with the largest timeout a second full timeout does not fit into the u64 mock clock)
+                if timeout <= u64::MAX / 2 {
+                    let d = late_tick(&mut rng, 0);
+                    out.req(&format!("pp tick {}", d));
+                    let r3 = out.req_ret(&format!("pp poll 1 {}", ch));
+                    out.oracle("c13-msb-after-dropped-lsb-is-lone", &desc, r3 == cells7(ch, number, reg, v));
+                }
             }
             _ => {
                 // same feeds, different passage of time (no polls): identical results
